@@ -465,3 +465,240 @@ func baseChildrenOf(t *Term) string {
 	}
 	return s
 }
+
+// ---- R25 DLINK: next/prev pairing in the doubly linked list ----
+
+func ruleR25(c *Ctx) *RuleResult {
+	p := c.p
+	r := &RuleResult{Rule: "R25", Title: "DLINK: in the doubly linked list every next-link store travels with the matching prev-link store", Floor: 4}
+	clause := "x.next = y (y not nil) is paired on the same path with y.prev = x, and y.prev = x (x not nil) with x.next = y: Get/Set/Remove/Insert and reverse iteration walk prev from the tail, so one stale prev pointer misdirects them while Values() and forward iteration stay correct"
+	ct := p.T.ContainerByKey("lists/doublylinkedlist.List")
+	if ct == nil {
+		r.undecided("lists/doublylinkedlist", clause, "-", "anchored type not found")
+		return r
+	}
+	ms := methodsOf(p, ct)
+	for _, name := range sortedNames(ms) {
+		fn := ms[name]
+		gc := c.GC(fn)
+		if gc.Undecided != "" {
+			continue
+		}
+		var bad []string
+		n := 0
+		for _, g := range gc.GCs {
+			newPrev := map[string]string{} // new element -> its initial prev
+			for _, ef := range g.Effects {
+				if storeToField(ef, "prev") && ef.Args[0].Args[0].Op == "new" {
+					newPrev[noEpoch(ef.Args[0].Args[0])] = noEpoch(ef.Args[1])
+				}
+			}
+			has := func(field string, obj, val *Term) bool {
+				for _, ef := range g.Effects {
+					if storeToField(ef, field) && noEpoch(ef.Args[0].Args[0]) == noEpoch(obj) && noEpoch(ef.Args[1]) == noEpoch(val) {
+						return true
+					}
+				}
+				return false
+			}
+			// on a path that knows the list is empty, list.first and list.last are nil (representation invariant, see R27)
+			emptyEnds := func(t *Term) bool {
+				if !(t.Op == "load" && t.Args[0].Op == "fa" && (t.Args[0].Leaf == "first" || t.Args[0].Leaf == "last") && t.Args[0].Args[0].String() == "p:0") {
+					return false
+				}
+				for _, a := range g.Guards {
+					if a.Op == "==" && a.Args[0].String() == "#:0" && a.Args[1].Op == "load" && a.Args[1].Args[0].Op == "fa" && a.Args[1].Args[0].Leaf == "size" && a.Args[1].Args[0].Args[0].String() == "p:0" {
+						return true
+					}
+				}
+				return false
+			}
+			for _, ef := range g.Effects {
+				if (storeToField(ef, "next") || storeToField(ef, "prev")) && emptyEnds(ef.Args[1]) {
+					continue
+				}
+				switch {
+				case storeToField(ef, "next"):
+					x, y := ef.Args[0].Args[0], ef.Args[1]
+					if knownNil(g, y) || x.Op == "new" && y.String() == "#:nil" {
+						continue
+					}
+					n++
+					if !has("prev", y, x) {
+						bad = append(bad, fmt.Sprintf("%s.next = %s without %s.prev = %s on the path: %s", shortTerm(x), shortTerm(y), shortTerm(y), shortTerm(x), trunc(guardsString(g), 160)))
+					}
+				case storeToField(ef, "prev"):
+					y, x := ef.Args[0].Args[0], ef.Args[1]
+					if knownNil(g, x) {
+						continue
+					}
+					n++
+					if !has("next", x, y) {
+						bad = append(bad, fmt.Sprintf("%s.prev = %s without %s.next = %s on the path: %s", shortTerm(y), shortTerm(x), shortTerm(x), shortTerm(y), trunc(guardsString(g), 160)))
+					}
+				}
+			}
+		}
+		if n == 0 {
+			continue
+		}
+		key := p.FuncKey(fn)
+		if len(bad) > 0 {
+			r.bad(key, clause, p.FuncPos(fn), strings.Join(dedup(bad), "\n"))
+		} else {
+			r.ok(key, clause, p.FuncPos(fn), fmt.Sprintf("%d link store(s), each with its twin on the same path", n))
+		}
+	}
+	return r
+}
+
+// ---- R27 EMPTYINV: pointer-emptiness predicates are backed by the operations that empty the list ----
+
+func ruleR27(c *Ctx) *RuleResult {
+	p := c.p
+	r := &RuleResult{Rule: "R27", Title: "EMPTYINV: a linked list that tests or uses first/last as 'empty ⇒ nil' has every emptying path establish it", Floor: 2}
+	clause := "if some operation relies on 'list empty ⇒ %s == nil' (tests the field against nil, or links it into a new element while size == 0), then every path that can leave the list empty (size := 0, Clear, or size-1 without knowing size != 1) stores nil into that field — the two sites must agree (each edit alone is harmless, together they corrupt the list)"
+	for _, tk := range []string{"lists/singlylinkedlist.List", "lists/doublylinkedlist.List"} {
+		ct := p.T.ContainerByKey(tk)
+		if ct == nil {
+			r.undecided(tk, fmt.Sprintf(clause, "first/last"), "-", "anchored type not found")
+			continue
+		}
+		ms := methodsOf(p, ct)
+		isListField := func(t *Term, f string) bool {
+			return t.Op == "load" && len(t.Args) == 1 && t.Args[0].Op == "fa" && t.Args[0].Leaf == f && t.Args[0].Args[0].String() == "p:0"
+		}
+		atomIs := func(a *Term, op, cst string) bool {
+			return a.Op == op && len(a.Args) == 2 && a.Args[0].String() == cst && isListField(a.Args[1], "size")
+		}
+		var curGC *GCNF
+		var sizeIs func(g *GC, op, cst string) bool
+		sizeIs = func(g *GC, op, cst string) bool {
+			for _, a := range g.Guards {
+				if atomIs(a, op, cst) {
+					return true
+				}
+			}
+			// a path that starts at a loop header also knows what every path entering that loop from outside knows
+			// (the size is not written inside the search loops)
+			if g.From != 0 && curGC != nil {
+				n, all := 0, true
+				for _, x := range curGC.GCs {
+					if x.From != g.From && x.Exit.Op == "goto" && x.Exit.Leaf == itoa(g.From) {
+						n++
+						if x.From > g.From || !sizeIs(x, op, cst) {
+							all = false
+						}
+					}
+				}
+				return n > 0 && all
+			}
+			return false
+		}
+		// reliance set
+		req := map[string]string{}
+		for _, name := range sortedNames(ms) {
+			curGC = c.GC(ms[name])
+			for _, g := range c.GC(ms[name]).GCs {
+				for _, f := range []string{"first", "last"} {
+					for _, a := range g.Guards {
+						if (a.Op == "==" || a.Op == "!=") && len(a.Args) == 2 && a.Args[0].String() == "#:nil" && isListField(a.Args[1], f) {
+							if _, ok := req[f]; !ok {
+								req[f] = name + " tests list." + f + " against nil"
+							}
+						}
+					}
+					if sizeIs(g, "==", "#:0") {
+						for _, ef := range g.Effects {
+							if (storeToField(ef, "next") || storeToField(ef, "prev")) && isListField(ef.Args[1], f) {
+								if _, ok := req[f]; !ok {
+									req[f] = name + " links list." + f + " into an element while size == 0"
+								}
+							}
+						}
+					}
+				}
+			}
+		}
+		var fields []string
+		for f := range req {
+			fields = append(fields, f)
+		}
+		sort.Strings(fields)
+		r.ok(tk+":reliance", fmt.Sprintf(clause, "first/last"), p.Pos(ct.Obj().Pos()), fmt.Sprintf("fields relied upon as nil-when-empty: %v", fields))
+		// does Clear itself establish nil for a field?
+		clearSets := map[string]bool{}
+		if clr := ms["Clear"]; clr != nil {
+			for _, g := range c.GC(clr).GCs {
+				for _, ef := range g.Effects {
+					for _, f := range []string{"first", "last"} {
+						if storeToField(ef, f) && ef.Args[0].Args[0].String() == "p:0" && ef.Args[1].String() == "#:nil" {
+							clearSets[f] = true
+						}
+					}
+				}
+			}
+		}
+		for _, f := range fields {
+			var bad []string
+			n := 0
+			for _, name := range sortedNames(ms) {
+				curGC = c.GC(ms[name])
+				for _, g := range c.GC(ms[name]).GCs {
+					mayEmpty, viaClear := false, false
+					for _, ef := range g.Effects {
+						if storeToField(ef, "size") && ef.Args[0].Args[0].String() == "p:0" {
+							v := ef.Args[1]
+							if v.String() == "#:0" {
+								mayEmpty = true
+							}
+							// size-1 can reach 0 only on a path that removes the head (it stores list.first): removing any other
+							// element leaves the head in place
+							storesFirst := false
+							for _, e2 := range g.Effects {
+								if storeToField(e2, "first") && e2.Args[0].Args[0].String() == "p:0" {
+									storesFirst = true
+								}
+							}
+							if v.Op == "-" && isListField(v.Args[0], "size") && v.Args[1].String() == "#:1" && storesFirst && !sizeIs(g, "!=", "#:1") && !sizeIs(g, "<", "#:1") {
+								mayEmpty = true
+							}
+						}
+						if nm, args, ok := effDo(ef); ok && nm == "Clear" && len(args) == 1 && args[0].String() == "p:0" {
+							viaClear = true
+						}
+					}
+					if !mayEmpty {
+						continue
+					}
+					n++
+					ok := viaClear && clearSets[f]
+					for _, ef := range g.Effects {
+						if storeToField(ef, f) && ef.Args[0].Args[0].String() == "p:0" {
+							v := ef.Args[1]
+							if knownNil(g, v) {
+								ok = true
+							}
+							// moving an end along the chain: first = x.next / last = x.prev is a suffix / prefix of a nil-terminated
+							// chain, hence nil when no element is left (chain invariant, maintained by R25 / the append paths)
+							along := map[string]string{"first": "next", "last": "prev"}[f]
+							if v.Op == "load" && v.Args[0].Op == "fa" && v.Args[0].Leaf == along {
+								ok = true
+							}
+						}
+					}
+					if !ok {
+						bad = append(bad, fmt.Sprintf("%s can leave the list empty without storing nil into list.%s (%s): %s", name, f, req[f], trunc(g.String(), 220)))
+					}
+				}
+			}
+			key := tk + "." + f
+			if len(bad) > 0 {
+				r.bad(key, fmt.Sprintf(clause, f), p.Pos(ct.Obj().Pos()), strings.Join(dedup(bad), "\n"))
+			} else {
+				r.ok(key, fmt.Sprintf(clause, f), p.Pos(ct.Obj().Pos()), fmt.Sprintf("relied upon because %s; %d emptying path(s), each stores nil", req[f], n))
+			}
+		}
+	}
+	return r
+}
